@@ -1,7 +1,7 @@
 /* C09: spifconf_parse_line(NULL, line) — the "command line" mode — leaves the file stack where it was.
  * For a comment / empty line the function returns through SPIFCONF_PARSE_RET() BEFORE anything was pushed, and
- * that macro pops the file stack (and would end a context) whenever fp == NULL: fstate_idx wraps from 0 to 255.
- * Finding C09-argv-comment-underflow (demo: findings/demos/C09_argv_comment_underflow.c).
+ * that macro pops the file stack (and would end a context) whenever fp == NULL: fstate_idx wrapped from 0 to 255
+ * (finding C09-argv-comment-underflow, fixed c1befaf: a plain return; demo: findings/demos/C09_argv_comment_underflow.c).
  * Plain harness: fp and the first character are constants, so symbolic execution follows exactly the early-return
  * path (nothing else of the function is reachable). */
 
